@@ -333,6 +333,75 @@ def cache_key_rule(R, mods):
         R.ok('no memo idiom', sample='no attribute memo / table memo in the scanned modules (positive examples recognised)')
 
 
+def _class_level_state(tree):
+    """(class, attribute, method, node) for every container created once in a class body that a method changes in place through `self` while __init__ does not give
+    each instance its own (`self.x = ...` as a statement of __init__ itself)."""
+    out = []
+    for cdef in [n for n in ast.walk(tree) if isinstance(n, ast.ClassDef)]:
+        shared = {}
+        for st in cdef.body:
+            if isinstance(st, ast.Assign) and len(st.targets) == 1 and isinstance(st.targets[0], ast.Name):
+                v = st.value
+                if isinstance(v, (ast.Dict, ast.List, ast.Set)) or (isinstance(v, ast.Call) and u(v.func) in ('dict', 'list', 'set', 'defaultdict', 'collections.defaultdict',
+                                                                                                                'OrderedDict', 'collections.OrderedDict')):
+                    shared[st.targets[0].id] = st
+        if not shared:
+            continue
+        meths = [st for st in cdef.body if isinstance(st, ast.FunctionDef)]
+        own = set()
+        for fn in meths:
+            if fn.name == '__init__' and fn.args.args:
+                sname = fn.args.args[0].arg
+                for st in fn.body:
+                    if isinstance(st, ast.Assign):
+                        for t in st.targets:
+                            if isinstance(t, ast.Attribute) and isinstance(t.value, ast.Name) and t.value.id == sname:
+                                own.add(t.attr)
+        for fn in meths:
+            if not fn.args.args or any(u(d) in ('classmethod', 'staticmethod') for d in fn.decorator_list):
+                continue
+            sname = fn.args.args[0].arg
+            for n in walk_no_nested(fn):
+                hit = None
+                if isinstance(n, (ast.Assign, ast.AugAssign, ast.Delete)):
+                    tgts = n.targets if isinstance(n, (ast.Assign, ast.Delete)) else [n.target]
+                    for t in tgts:
+                        if isinstance(t, ast.Subscript) and isinstance(t.value, ast.Attribute) and isinstance(t.value.value, ast.Name) and t.value.value.id == sname:
+                            hit = t.value.attr
+                if isinstance(n, ast.Call) and isinstance(n.func, ast.Attribute) and n.func.attr in MUT and isinstance(n.func.value, ast.Attribute) \
+                        and isinstance(n.func.value.value, ast.Name) and n.func.value.value.id == sname:
+                    hit = n.func.value.attr
+                if hit in shared and hit not in own:
+                    out.append((cdef, hit, fn, n))
+    return out
+
+
+def class_level_state_rule(R, mods):
+    example = ast.parse("class M(object):\n    table = {}\n    names = []\n    own = {}\n    def __init__(self):\n        self.own = {}\n    def look(self, k):\n        if k not in self.table:\n"
+                        "            self.table[k] = 1\n        self.own[k] = 2\n        return self.table[k]\n    def reset(self):\n        self.table = {}\n")
+    for _n in ast.walk(example):
+        for _c in ast.iter_child_nodes(_n):
+            _c._parent = _n
+    if [(c.name, a, f.name) for c, a, f, _ in _class_level_state(example)] != [('M', 'table', 'look')]:
+        raise AnalysisError('class-level state rule: the built-in positive example is no longer recognised')
+    n_cls = 0
+    for m in mods:
+        classes = [n for n in ast.walk(m.tree) if isinstance(n, ast.ClassDef)]
+        n_cls += len(classes)
+        hits = _class_level_state(m.tree)
+        seen = set()
+        for cdef, attr, fn, n in hits:
+            if (cdef.name, attr) in seen:
+                continue
+            seen.add((cdef.name, attr))
+            R.violation('%s::%s.%s' % (m.name, cdef.name, attr), 'class-level-state:%s.%s' % (cdef.name, attr), '%s.%s is created once, in the class body; %s.%s changes it in place through self and '
+                        '__init__ gives an instance no container of its own: every instance (every machine, every parser) reads what another one stored' % (cdef.name, attr, cdef.name, fn.name),
+                        where(m, n), witness='two instances; the second reads what the first stored')
+        R.ok('%s: class-level containers' % m.name, sample='%s: %d classes, no class-level container is changed in place through self' % (m.name, len(classes)), nontrivial=not hits)
+    if not n_cls:
+        raise AnalysisError('no class found in the scanned modules')
+
+
 def state_copy_rule(R, mods):
     """For every class with a copy() method that builds a new instance of the class: the attributes that methods other than __init__ assign (`self.x = ..`, `self.x += ..`)
     or change in place (`self.x[k] = v`, `self.x.append(..)`, `self.x.__setitem__(..)`) are the state of an instance; copy() must set each of them on the new object (or hand it
@@ -1006,6 +1075,10 @@ def run(ctx, report):
     R17 = report.rule('C12.D17', 'a memoised value (attribute memo on a parameter, module-level table memo) is computed only from what selects its slot: the owner object, the key, '
                       'or what the miss test consults; no other parameter feeds it', floor=1)
     cache_key_rule(R17, ctx.all_modules())
+
+    R18 = report.rule('C12.D18', 'a container created once in a class body is not changed in place through self by a method unless __init__ gives every instance its own: two machines, '
+                      'two parsers, two instructions share no table', floor=5)
+    class_level_state_rule(R18, ctx.all_modules())
 
     R16 = report.rule('C12.D16', 'copy() of a state class carries every attribute its methods update: a copied machine state answers like the state it was copied from', floor=2)
     state_copy_rule(R16, [ctx.mod('eval_abs')])
